@@ -53,6 +53,50 @@ STRENGTHENED = [
 ]
 OUT = "/verif/seeded"
 
+# round 3 (E/F): the first trial of every change was blind (its description had not been read)
+BLIND = lambda sid: sid[-1] in "EF"
+# first trial reported for the wrong reason (an unsound check that was corrected afterwards)
+FIRST_REPORT_UNSOUND = {"C16-F"}
+STRENGTHENED += [
+    ("round 3 (E, F)", "40 further changes, every first trial blind: 19 were reported at once, 21 only after the extensions below"),
+    ("C02-E", "missed blind (rate): signal-killed commands were 1 in 20 E2 invocations of an 8 s stage; now 2 in 5 of the faulty ones, stage budget 14 s (realp.rs, props.py)"),
+    ("C02-F", "missed blind: C02 had no generated manifests; every fifth C02 history now runs C17's operations under C02's oracle (hist.rs)"),
+    ("C03-E", "missed blind: C03's histories had no torn log tails; C02/C03/C08/C09 histories now contain builds that die inside a log append (hist.rs, inv.crash)"),
+    ("C03-F", "missed blind: no file ever had an mtime at or before the Unix epoch; stamp-at-epoch edits added (sim.rs stamp_epoch, hist.rs)"),
+    ("C05-E", "missed blind: SIGINT only ever hit commands that die of it; gated E2 sessions added in which commands trap SIGINT and exit 0 without doing their work (real_gated.rs c05_sigint_case)"),
+    ("C08-F", "missed blind: every name in every workload was valid UTF-8; an E2 stage with Latin-1/arbitrary-byte output, directory and header names added to C08 (real_misc.rs c08_rawname_case)"),
+    ("C10-E", "missed blind: spacing had at most one continuation in a row and none before the end of a line; runs of 2-3 and trailing ones added (pure/manifest.rs gap)"),
+    ("C11-E", "missed blind: no variable was ever called in/out/in_newline/out_newline; added as file-level and block bindings (pure/manifest.rs var_name)"),
+    ("C11-F / C18-E", "missed blind (the same change, written independently for two properties): builddir was only bound at the top; now bound in included and subninja files (pure/manifest.rs), and C18's twin runs compare the log location with builddir bound in a subninja/included file (real_misc.rs)"),
+    ("C12-E", "missed blind: the process-level stage had no depfiles; depfiles left by a successful command (naming missing paths, directories, malformed, random) added, judged over two invocations (real_misc.rs)"),
+    ("C13-F", "missed blind: path re-spelling of the manifest was an edit operation of C08 only; C13's histories now start from a manifest whose every path, default targets included, is respelled (hist.rs, realp.rs)"),
+    ("C14-E", "missed blind: the duplicate was always spelled literally; now also through a build-block variable that shadows a file-level one (pure/manifest_dups.rs)"),
+    ("C15-E", "missed blind: no step had both depfile and deps=msvc; added to E2 (realp.rs new_world)"),
+    ("C17-E", "missed blind: generations never rewrote an included file; the CMake layout (include rewritten by the generator) added to E1 and E2 (hist.rs, realp.rs)"),
+    ("C17-F", "missed blind: the generator never reported dependencies; it now does (GN style depfile), with lists that change and shrink to nothing across generations (hist.rs make_generations)"),
+    ("C18-F", "missed blind: C18 only judged successful invocations; a refused acyclic request is now a violation (sched.rs closure-refused)"),
+    ("C16-F", "counted as missed blind: its first trial did exit 1, but only through `start-after-sigint`, a bound that was unsound when no command was executing at the signal (found and corrected in this round, see DESIGN B5); with the bound corrected the change went unreported until C16 got a terminal stage: commands' output and failure headers as finally visible on an emulated screen (real_gated.rs c16_pty_case, screen_rows)"),
+    ("C19-F", "missed blind: the running count shown on a terminal was never compared with the commands executing; gated pty sessions compare the displayed D/T done, R running with the truth at quiescent points (real_gated.rs c19_pty_case)"),
+    ("C20-E / C20-F", "missed blind: failing pty commands always printed something and narrow terminals were 1 case in 72; silent failures (exit 3, test -e) and widths 1-9 are now frequent, and a width below 10 must not be rendered for (real_misc.rs c20_pty_case)"),
+]
+
+
+def from_readme(d):
+    """(what, needs) from the author's README when lib/seeded_meta.py has no hand-written entry."""
+    import re
+    for n in ("README.md", "README.txt", "README"):
+        p = os.path.join(d, n)
+        if os.path.exists(p):
+            t = open(p, errors="replace").read()
+            break
+    else:
+        return ("", "")
+    title = t.splitlines()[0].lstrip("# ").strip()
+    title = re.sub(r"^Mutation [A-F]\s*[-:\u2014]+\s*", "", title)
+    m = re.search(r"^#+\s*What is needed[^\n]*\n(.*?)(?=^#+\s)", t, re.S | re.M)
+    needs = " ".join(m.group(1).split())[:420] if m else ""
+    return (title.replace("|", "/"), needs.replace("|", "/"))
+
 def load(p):
     try:
         t = open(p).read()
@@ -91,9 +135,9 @@ for f in sorted(glob.glob(os.path.join(TRIALS, "*.confirm.json"))):
             prev = det.get(k)
             # later runs (strengthened checks) supersede earlier ones
             det[k] = {"exit": v["exit"], "signatures": sigs, "details": v.get("first_details", [])[:3], "run": os.path.basename(df)}
-            if prev and prev["exit"] != 1 and v["exit"] == 1:
+            if prev and (prev["exit"] != 1 or sid in FIRST_REPORT_UNSOUND) and v["exit"] == 1:
                 det[k]["missed_before_strengthening"] = True
-    what, needs = NEEDS.get(sid, ("", ""))
+    what, needs = NEEDS.get(sid) or from_readme(src)
     meta = {
         "id": sid,
         "property": prop,
@@ -112,7 +156,9 @@ for f in sorted(glob.glob(os.path.join(TRIALS, "*.confirm.json"))):
     caught = [k for k, v in det.items() if v["exit"] == 1]
     note = ""
     if any(v.get("missed_before_strengthening") for v in det.values()):
-        note = " — missed on the first trial; reported after the workload was extended (see below)"
+        note = " — missed on the first%s trial; reported after the workload was extended (see below)" % (" (blind)" if BLIND(sid) else "")
+    elif BLIND(sid):
+        note = " — blind first trial"
     elif sid in ANTICIPATED:
         note = " — workload extended after reading the change's description, before its first trial"
     rows.append((sid, what, needs, (", ".join("%s (%s)" % (k, "; ".join(det[k]["signatures"][:2])) for k in caught) or "MISSED by " + ", ".join(det.keys())) + note))
